@@ -25,27 +25,42 @@ PROP = 'C16'
 LEVEL = 'exploration'
 RULE = (
     'text engine: FGDs of 1-6 entities built with FGD/EntityDef/KVDef/IODef/Resource/helper constructors; the value, '
-    'entity and helper type are rotated with the case index so every ValueTypes/EntityTypes/HelperTypes member occurs; '
-    'empty display names/defaults/descriptions, 900-3000 character strings (words, no spaces, escapes at every density, '
-    'lengths 998-1002/1999-2001, newline placements) in display names, descriptions, entity/IO descriptions, choice and '
-    'spawnflag names; tagged duplicates of a key, aliases, bases (earlier entities only: no loops), kv_order '
-    'permutations, @resources; all four (custom_syntax, label_spawnflags) combinations; text delivered as str or '
-    'cp1252 bytes. Restrictions (what the text format can carry): names are bare identifiers and keyvalues are not '
-    'called input/output; BOOL defaults are 0/1; SPAWNFLAGS keyvalues have no display name/default/description '
-    '("never use names"); choice and spawnflag names have no newline, spawnflag names no leading blank or own [N] '
-    'label; choice names no quote/backslash (always written with classic escaping); helper arguments are in the '
-    'canonical shape of their parser (no commas/parens, numbers that print exactly) and autovis() is not generated as '
-    'a helper (parse-only); resource types are those with an @resources keyword; with custom_syntax=False no '
-    'quote/backslash/CR anywhere, one variant per key, and tags, @resources, extension helpers and the alias marker '
-    'are expected to be dropped; I/O types are compared after VALUE_TO_IO_DECAY. binary engine: engine-format FGDs '
-    '(_CBaseEntity_ + 60-110 entities based on it or aliasing one another, untagged, no CHOICES, no reportable, '
-    '>= 512 strings) and the bundled database; compared without descriptions/helpers (documented as not stored). '
-    'lazy engine: random query orders and random subsets on fresh EngineDB instances. Non-trivial = at least one '
-    'keyvalue with a default, description or value list; distinct = distinct export text / query order.')
+    'entity and helper type are rotated with the case index so every ValueTypes/EntityTypes/HelperTypes member occurs '
+    '(plus unknown helpers and custom value-type names); empty display names/defaults/descriptions, 900-3000 character '
+    'strings (words, no spaces, escapes at every density, lengths 998-1002/1999-2001, newline placements) in display '
+    'names, descriptions, entity/IO descriptions, choice and spawnflag names; defaults and choice values that need '
+    'escaping (quotes, backslash paths, line breaks; custom_syntax=True only); tagged duplicates of a key, aliases, '
+    'bases (earlier entities only: no loops), kv_order permutations and orderby(), @resources; all four '
+    '(custom_syntax, label_spawnflags) combinations; text delivered as str or cp1252 bytes; a fixed list of corner '
+    'definitions (empty display name alone/last/with default, empty choice name, cut positions of the string '
+    'splitter). Restrictions (what the text format can carry): names are bare identifiers and keyvalues are not '
+    'called input/output; BOOL defaults are 0/1 (export documents forcing one); SPAWNFLAGS keyvalues have no display '
+    'name/default/description ("Spawnflags never use names"); choice and spawnflag names have no newline (export '
+    'documents replacing them), spawnflag names no leading blank or own [N] label (the reader strips the label); '
+    'choice names no quote/backslash (always written with the classic escaping); choice values are not blank-padded '
+    'numbers (anything float() accepts is written bare); a CHOICES/SPAWNFLAGS list of None equals an empty list '
+    '(choices_list/flags_list and KVDef.copy document it); helper arguments are in the canonical shape of their '
+    'parser (no commas/parens, numbers that print exactly, key names that are not numbers) and autovis() is not '
+    'generated as a helper (parse-only); resource types are those with an @resources keyword; with '
+    'custom_syntax=False no quote/backslash/CR anywhere, one variant per key, and tags, @resources, extension '
+    'helpers and the alias marker are expected to be dropped; I/O types are compared after VALUE_TO_IO_DECAY. '
+    'dbase engine: FGD.engine_dbase() whole (4 option combinations) and entity by entity with its bases (240 sampled '
+    'in quick, all in thorough); under custom_syntax=False a string leaf holding a quote, backslash or CR is excused '
+    '(counted as classic_syntax_uncarried_strings). binary engine: engine-format FGDs (_CBaseEntity_ + 60-110 '
+    'entities based on it or aliasing one another, untagged except resources, no CHOICES, no reportable, >= 512 '
+    'strings as serialise() asserts) and the bundled database; compared without descriptions/helpers (documented as '
+    'not stored) and with explicit-empty @resources equal to none; the first 40 entities are also fetched lazily from '
+    'the same bytes. lazy engine: fresh EngineDB instances from fgd.lzma queried by get_ent or (cache reset) '
+    'EntityDef.engine_def in random orders: full permutations, random subsets, repeats, aliases first, mixed-case '
+    'names; bases are compared recursively as attached objects; then get_fgd() after a partial history and '
+    'FGD.engine_dbase() against the cold full load. Non-trivial = at least one keyvalue with a default, description '
+    'or value list; distinct = distinct export text / definition set / query order.')
 ASSUMPTIONS = [
     'pure-Python tokenizer; srctools imported from the tree under test',
     'VALUE_TO_IO_DECAY is taken as the documentation of the I/O type decay (checked to be idempotent and IO-valid)',
-    'the binary format is documented to drop descriptions and helpers; reportable and key order lists are not stored',
+    'the binary format is documented to drop descriptions and helpers; reportable, key order lists and the '
+    'explicit-empty @resources marker are not stored (dictionary order of keyvalues is)',
+    'export() may turn a None value list of a CHOICES/SPAWNFLAGS keyvalue into [] (documented by choices_list/flags_list)',
     'PYTHONHASHSEED=0 (set iteration order of tags is sorted by the writer anyway)',
 ]
 JOBS = {'quick': 4, 'thorough': 16}
@@ -290,7 +305,8 @@ def _feature_counts(run, snaps: Dict[str, dict], text: Optional[str]) -> None:
                 run.count('tagged_duplicate_keys')
             for _, kv in variants:
                 vs = run.extra.setdefault('value_types_seen', {})
-                vs[kv['type']] = vs.get(kv['type'], 0) + 1
+                t = 'custom-name' if kv['type'].startswith('custom:') else kv['type']
+                vs[t] = vs.get(t, 0) + 1
                 if not kv['disp_name']:
                     run.count('empty_display_names')
                     if not kv['default'] and not kv['desc'] and kv['type'] != 'SPAWNFLAGS':
